@@ -142,6 +142,9 @@ def word_level(ctx, stats, n):
         a, b = rng.choice(lat), rng.choice(lat)
         op = rng.choice(["add", "sub", "mul", "div", "mod"])
         cases.append((ival(a), ival(b), op))
+    # every pair of the values at which something changes (zero, the units, the ends of both ranges), all five words
+    S = [0, 1, -1, 2, -2, 3, H - 1, H, H + 1, -H, -H + 1, W - 1, W - 2, (1 << 32), -(1 << 32)]
+    cases += [(a, b, op) for a in S for b in S for op in ("add", "sub", "mul", "div", "mod")]
 
     def lit(z):
         m = abs(z)
